@@ -78,7 +78,7 @@ func genDst(c *core.Ctx, size int) dstSpec {
 func genBad(c *core.Ctx, codec string, hostileMax int) op {
 	o := op{Kind: "bad", DecDst: genDst(c, 64)}
 	o.In = genInput(c, hostileMax)
-	modes := []string{"trunc", "trunc", "flip", "flip", "garbage", "garbage", "gzhdr", "zstdhdr", "empty", "lz4len"}
+	modes := []string{"trunc", "trunc", "flip", "flip", "tail", "tail", "garbage", "garbage", "gzhdr", "zstdhdr", "empty", "lz4len"}
 	if codec == "magic" {
 		modes = []string{"garbage", "empty", "gzhdr"}
 	}
@@ -297,7 +297,7 @@ func record(c *core.Ctx, h *history, res *execResult) {
 }
 
 func runC20(c *core.Ctx) {
-	c.Res.Rule = "histories of calls on each codec value exported by package parquet (Uncompressed, Snappy, Gzip, Brotli, Zstd, Lz4Raw: shared, pooled) and on a test codec run through the real compress.Compressor/Decompressor: round trips of generated inputs (empty, 1 B, random, repetitive, text-like, zero, ramp, mixed; sizes up to 64 KiB quick / 4 MiB thorough) with dst nil / zero-cap / small / large pre-filled with garbage / exact / aliasing an earlier output, interleaved with failing decodes (truncated and bit-flipped valid streams, random garbage, gzip and zstd headers followed by garbage, length bombs, empty) and GC cycles, sequentially and from 8-32 goroutines at once. A case is one call (or call pair) of a history; non-trivial = non-empty input or a failing decode; distinct by codec + JSON of the call."
+	c.Res.Rule = "histories of calls on each codec value exported by package parquet (Uncompressed, Snappy, Gzip, Brotli, Zstd, Lz4Raw: shared, pooled) and on a test codec run through the real compress.Compressor/Decompressor: round trips of generated inputs (empty, 1 B, random, repetitive, text-like, zero, ramp, mixed; sizes up to 64 KiB quick / 4 MiB thorough) with dst nil / zero-cap / small / large pre-filled with garbage / exact / aliasing an earlier output, interleaved with failing decodes (truncated and bit-flipped valid streams, valid streams followed by trailing bytes, random garbage, gzip and zstd headers followed by garbage, length bombs, empty) and GC cycles, sequentially and from 8-32 goroutines at once. A case is one call (or call pair) of a history; non-trivial = non-empty input or a failing decode; distinct by codec + JSON of the call."
 	maxSize := c.N(64<<10, 4<<20)
 	hostileMax := c.N(16<<10, 128<<10)
 
